@@ -19,7 +19,7 @@ TRUSTED = [
 ]
 ASSUMPTIONS = ['texts are str objects without lone surrogates', 'the force of the totality theorem is the fidelity of the model raise points, which the exception-type correspondence measures']
 RULE = ('exhaustive line-kind texts (C05 stream); field names that collide with numeric suffixes and internal attribute names '
-        '(License-1, Files-1-1, Extra-Data, Line-Numbers-By-Field, Unknown, unknown-1) exhaustively for <= 4 fields over 8 names; MIME-looking headers with bodies, '
+        '(License-1, Files-1-1, Extra-Data, Line-Numbers-By-Field, Unknown, unknown-1) exhaustively for <= 4 fields over 8 names; MIME-looking headers with bodies, sequences of paragraph kinds (value-less fields, unknown names, empty licenses; all up to 3/4 paragraphs, random up to 7); every returned value is emptied before the second call; '
         'From lines, colon-only lines; raw Unicode noise. non-trivial = the text has a declaration line')
 TECHNIQUE = ('Lean 4 theorem Props.C07.sound: for every text the model of every lenient entry point returns normally (every explicit raise point of the copyright pipeline is unreachable) '
              '+ exception-type correspondence of the whole pipeline + holdsOn on every observation')
@@ -34,25 +34,52 @@ LEVEL_NOTE = ('Trusted: Lean kernel; axioms propext, Classical.choice, Quot.soun
               'stdlib email parsing behind get_paragraph_data is observed, not modelled here.')
 
 
+def scramble(x, depth=0):
+    """use up a returned value the way a caller may: empty every mapping and list reachable from it. What a later call on the
+    same text returns must not depend on it (a result that is shared with a cache, a default or the next result would)."""
+    if depth > 6:
+        return
+    if isinstance(x, dict):
+        vals = list(x.values())
+        x.clear()
+    elif isinstance(x, list):
+        vals = list(x)
+        del x[:]
+    elif hasattr(x, '__dict__') and type(x).__module__.startswith('debian_inspector'):
+        vals = list(vars(x).values())
+    else:
+        return
+    for v in vals:
+        scramble(v, depth + 1)
+
+
 def observe(op, t):
     def run():
         out = []
+        raw = []
         try:
-            g = [[(f.name, [(l.number, l.value) for l in f.lines]) for f in grp] for grp in deb822.get_paragraphs_as_field_groups(t)]
+            gs = list(deb822.get_paragraphs_as_field_groups(t))
+            raw.append(gs)
+            g = [[(f.name, [(l.number, l.value) for l in f.lines]) for f in grp] for grp in gs]
             out.append((None, g))
         except Exception as e:
             out.append((Exc(type(e).__name__), None))
         try:
-            out.append((None, list(debcon.get_paragraphs_data(t))))
+            pd = list(debcon.get_paragraphs_data(t))
+            raw.append(pd)
+            out.append((None, [dict(d) for d in pd]))
         except Exception as e:
             out.append((Exc(type(e).__name__), None))
         try:
-            out.append((None, debcon.get_paragraph_data(t)))
+            d1 = debcon.get_paragraph_data(t)
+            raw.append(d1)
+            out.append((None, dict(d1)))
         except Exception as e:
             out.append((Exc(type(e).__name__), None))
         try:
             c = cr.DebianCopyright.from_text(t)
-            c.to_dict()
+            raw.append(c)
+            raw.append(c.to_dict())
             paras = cobs.paras_obs(c)
             d = c.dumps()
             v = bool(c.is_valid())
@@ -60,10 +87,11 @@ def observe(op, t):
             out.append((None, [paras, d, v, vs]))
         except Exception as e:
             out.append((Exc(type(e).__name__), None))
-        return out
-    a = run()
-    b = run()
-    same = repr(a) == repr(b)
+        return repr(out), out, raw
+    ra, a, raw = run()
+    scramble(raw)
+    rb, b, _ = run()
+    same = ra == rb
     flags = [x[0] for x in a]
     cres = a[3][1] if a[3][0] is None else a[3][0]
     return [flags[0], flags[1], flags[2], cres, same]
@@ -136,7 +164,24 @@ def mime_family(rng, n):
         yield '\n'.join(lines) + '\n' + rng.choice(MIME_BODIES)
 
 
+PARA_KINDS = ['Format: x', 'License:', 'License: MIT', 'License:\n some text', 'Foo:', 'Bar:', 'Foo: v', 'junk', 'Files: *', 'Files:', 'Copyright:', 'Unknown:',
+              'Files: *\nLicense:', 'Comment:\n .', 'unknown: u']
+
+
+def paragraph_kinds(tier, rng):
+    """documents as sequences of paragraphs of a few kinds (value-less fields, unknown names, junk, empty licenses): every sequence up to a length,
+    then random longer ones. The merge of unknown paragraphs and the fold into an empty License need 3-4 paragraphs in a particular order."""
+    L = 3 if tier == 'quick' else 4
+    for n in range(1, L + 1):
+        for ks in itertools.product(PARA_KINDS, repeat=n):
+            yield '\n\n'.join(ks) + '\n'
+    for _ in range(2500 if tier == 'quick' else 40000):
+        ks = [rng.choice(PARA_KINDS) for _ in range(rng.randint(L + 1, 7))]
+        yield rng.choice(('\n\n', '\n\n', '\n\n\n')).join(ks) + rng.choice(('\n', '', '\n\n'))
+
+
 def streams(tier, rng):
+    yield {'name': 'paragraph-kinds', 'op': 'C07', 'cases': paragraph_kinds(tier, rng)}
     yield {'name': 'mime-looking', 'op': 'C07', 'cases': mime_family(rng, 1500 if tier == 'quick' else 30000)}
     L = 3 if tier == 'quick' else 4
     yield {'name': 'exhaustive-lines<=%d' % L, 'op': 'C07', 'cases': gen822.exhaustive(L), 'exhaustive': True}
